@@ -723,4 +723,137 @@ def r1_13(ctx: Ctx) -> RuleResult:
     return rr
 
 
-RULES = [r1_1, r1_2, r1_3, r1_4, r1_5, r1_6, r1_7, r1_8, r1_9, r1_10, r1_11, r1_12, r1_13]
+def r1_14(ctx: Ctx, rule: str = "R1.14") -> RuleResult:
+    """RFC 9535 2.3 on small documents.  The four selectors' resolvers (and their async twins) are executed abstractly
+    (rules/model.py) on one input node whose value is an array of 0, 1 or 3 elements, an object, a string, a number,
+    true and null, for a set of selector arguments that covers every order of start / stop / step / index against the
+    length: the matches they construct - values and location parts, in order - must be those the RFC defines (a slice
+    is Python's slice for a non-zero step and nothing for step 0; an index on an object selects the member whose name
+    is its decimal spelling, the documented departure).  A run the interpreter cannot decide is an analysis error."""
+    from .model import run_selector
+
+    rr = RuleResult(rule, "selectors select exactly the RFC's nodelist on covering small documents", floor=1400)
+    arrays = [(), (10,), (10, 20, 30)]
+    others = [{"x": 1, "y": 2}, {"1": 7, "x": 1}, "ab", 5, True, None]
+    bounds = [None, -4, -1, 0, 2, 4]
+    steps = [None, 1, 2, -1, -2, 0]
+    first_bad: Dict[str, Tuple[str, object, object]] = {}
+    counts: Dict[str, int] = {}
+
+    def init_of(cname: str, fields: Dict[str, object]) -> Dict[str, object]:
+        # keyword arguments of the selector's own constructor, which is executed abstractly as well
+        if cname == "SliceSelector":
+            sl = fields["slice"]
+            return {"start": sl.start, "stop": sl.stop, "step": sl.step}  # type: ignore[attr-defined]
+        if cname == "IndexSelector":
+            return {"index": fields["index"]}
+        if cname == "PropertySelector":
+            return {"name": fields["name"], "shorthand": False}
+        return {"shorthand": False}
+
+    def check(cname: str, mname: str, fields: Dict[str, object], doc: object, want: List[Tuple[object, object]], label: str) -> None:
+        got = run_selector(ctx, rule, cname, mname, fields, doc, init=init_of(cname, fields))
+        if got is None:
+            raise AnalysisError(f"{rule}: {cname}.{mname} cannot be decided for {label} on {doc!r}")
+        key = f"{cname}.{mname}"
+        counts[key] = counts.get(key, 0) + 1
+        if got != want and key not in first_bad:
+            first_bad[key] = (f"{label} on {doc!r}", got, want)
+
+    for mname in ("resolve", "resolve_async"):
+        for doc in arrays:
+            n = len(doc)
+            for a in bounds:
+                for b in bounds:
+                    for st in steps:
+                        sl = slice(a, b, st)
+                        want = [] if st == 0 else [(doc[i], ("a", i)) for i in range(*sl.indices(n))]
+                        check("SliceSelector", mname, {"slice": sl}, doc, want, f"[{'' if a is None else a}:{'' if b is None else b}:{'' if st is None else st}]")
+            for i in range(-4, 5):
+                want = [(doc[i], ("a", i if i >= 0 else n + i))] if -n <= i < n else []
+                check("IndexSelector", mname, {"index": i, "_as_key": str(i)}, doc, want, f"[{i}]")
+            check("WildSelector", mname, {}, doc, [(v, ("a", i)) for i, v in enumerate(doc)], "[*]")
+            for name in ("x", "1"):
+                check("PropertySelector", mname, {"name": name, "shorthand": False}, doc, [], f"['{name}']")
+        for doc in others:
+            check("SliceSelector", mname, {"slice": slice(0, 2, 1)}, doc, [], "[0:2]")
+            for i in (0, 1, -1):
+                want = [(doc[str(i)], ("a", str(i)))] if isinstance(doc, dict) and str(i) in doc else []
+                check("IndexSelector", mname, {"index": i, "_as_key": str(i)}, doc, want, f"[{i}]")
+            check("WildSelector", mname, {}, doc, [(v, ("a", k)) for k, v in doc.items()] if isinstance(doc, dict) else [], "[*]")
+            for name in ("x", "missing"):
+                want = [(doc[name], ("a", name))] if isinstance(doc, dict) and name in doc else []
+                check("PropertySelector", mname, {"name": name, "shorthand": False}, doc, want, f"['{name}']")
+    # bracketed lists concatenate what each selector selects, in the order written, for each input node; the
+    # descendant segment visits a node before its children, children in document order (containers only: the
+    # selectors that follow select nothing from other values)
+    from sa.peval import UNKNOWN as _U
+
+    from .model import MObj as _MObj
+
+    def tok(model):  # type: ignore[no-untyped-def]
+        return _MObj(model, "Token", {"value": _U, "kind": _U})
+
+    def ref_item(item: object, doc: object) -> List[Tuple[object, object]]:
+        if isinstance(item, int) and not isinstance(item, bool):
+            if isinstance(doc, tuple):
+                n_ = len(doc)
+                return [(doc[item], ("a", item if item >= 0 else n_ + item))] if -n_ <= item < n_ else []
+            return [(doc[str(item)], ("a", str(item)))] if isinstance(doc, dict) and str(item) in doc else []
+        if isinstance(item, str):
+            return [(doc[item], ("a", item))] if isinstance(doc, dict) and item in doc else []
+        return []
+
+    for mname in ("resolve", "resolve_async"):
+        for items in ([0, "x", -1], [1, 1], [-1, 0], ["x", "y", "x"], [5, "missing"]):
+            for doc in ((10, 20, 30), {"x": 1, "y": 2}, "ab"):
+                def build(model, env, items=items):  # type: ignore[no-untyped-def]
+                    sels = [model.new("IndexSelector", env=env, token=tok(model), index=i) if isinstance(i, int)
+                            else model.new("PropertySelector", env=env, token=tok(model), name=i, shorthand=False) for i in items]
+                    return model.new("ListSelector", env=env, token=tok(model), items=sels)
+
+                got = run_selector(ctx, rule, "ListSelector", mname, {}, doc, build=build)
+                if got is None:
+                    raise AnalysisError(f"{rule}: ListSelector.{mname} cannot be decided for {items} on {doc!r}")
+                want = [m for it in items for m in ref_item(it, doc)]
+                key = f"ListSelector.{mname}"
+                counts[key] = counts.get(key, 0) + 1
+                if got != want and key not in first_bad:
+                    first_bad[key] = (f"{items} on {doc!r}", got, want)
+
+        def containers(doc: object, parts: Tuple[object, ...]) -> List[Tuple[object, object]]:
+            out: List[Tuple[object, object]] = []
+            kids = list(doc.items()) if isinstance(doc, dict) else (list(enumerate(doc)) if isinstance(doc, (tuple, list)) else [])
+            for k, v in kids:
+                if isinstance(v, (dict, tuple, list)):
+                    out.append((v, parts + (k,)))
+                    out.extend(containers(v, parts + (k,)))
+            return out
+
+        for doc in ({"x": (1, {"y": 2}), "z": 3, "w": {"v": ()}}, ((1,), (2, (3,))), "ab", 5, {}):
+            def build_d(model, env):  # type: ignore[no-untyped-def]
+                return model.new("RecursiveDescentSelector", env=env, token=tok(model))
+
+            got = run_selector(ctx, rule, "RecursiveDescentSelector", mname, {}, doc, build=build_d)
+            if got is None:
+                raise AnalysisError(f"{rule}: RecursiveDescentSelector.{mname} cannot be decided on {doc!r}")
+            want = [(doc, ("a",))] + containers(doc, ("a",))
+            key = f"RecursiveDescentSelector.{mname}"
+            counts[key] = counts.get(key, 0) + 1
+            if got != want and key not in first_bad:
+                first_bad[key] = (f"`..` on {doc!r}", got, want)
+
+    for key, n_runs in sorted(counts.items()):
+        cname, mname = key.split(".")
+        fn = ctx.repo.require_class("jsonpath.selectors." + cname).methods[mname]
+        if key not in first_bad:
+            for _ in range(n_runs):
+                rr.ok(fn.loc(), f"{key}: {n_runs} selector / document pairs give the RFC's nodelist")
+        else:
+            label, got, want = first_bad[key]
+            rr.bad(fn, fn.node, f"{key}: the selector {label} constructs the matches {got} (value, location) but RFC 9535 defines {want}",
+                   construct=f"{key}: {label} -> {got} instead of {want}")
+    return rr
+
+
+RULES = [r1_1, r1_2, r1_3, r1_4, r1_5, r1_6, r1_7, r1_8, r1_9, r1_10, r1_11, r1_12, r1_13, r1_14]
